@@ -1,10 +1,14 @@
 #!/bin/bash
-# usage: tools/try_mutant.sh <seeded-dir> <tier> <seeds> <prop>...   (applies the patch to /repo, runs, reverts)
+# usage: tools/try_mutant.sh <seeded-dir> <tier> "<seeds>" <prop>...
+# Applies the patch to a scratch worktree of /repo under /tmp (never to /repo itself), runs the checks against that tree
+# (VERIF_REPO; work files and evidence go under .work/alt-*), removes the worktree.
 d=$1; tier=$2; seeds=$3; shift 3
-git -C /repo diff --quiet || { echo "/repo dirty"; exit 2; }
-git -C /repo apply /verif/$d/patch.diff || exit 2
-trap 'git -C /repo checkout -- .' EXIT
+name=mut_$(basename $d | tr -c 'A-Za-z0-9\n' '_')_$$
+wt=/tmp/$name
+git -C /repo worktree add --detach -q $wt HEAD || exit 2
+trap 'git -C /repo worktree remove --force '$wt' 2>/dev/null; rm -rf /verif/.work/alt-'$name EXIT
+git -C $wt apply /verif/$d/patch.diff || exit 2
 for p in "$@"; do for s in $seeds; do
-  out=$(VERIF_SEED=$s /verif/check $p --tier $tier 2>&1); rc=$?
+  out=$(VERIF_REPO=$wt VERIF_SEED=$s /verif/check $p --tier $tier 2>&1); rc=$?
   echo "$d $p seed=$s rc=$rc $(echo "$out" | grep -c '^VIOLATION') violations; $(echo "$out" | grep -m1 -A1 '^VIOLATION' | tail -1 | cut -c1-160)"
 done; done
